@@ -362,8 +362,13 @@ def extract_binio(src, params):
     # length-prefixed bodies: allocated up front from the declared length?
     unchecked = len(re.findall(r"vec!\[0u8;\s*len\]", src))
     if unchecked == 0:
-        need(re.search(r"\.take\(", src) and re.search(r"read_to_end\(", src),
-             "binio: bodies are read neither via vec![0u8; len] nor via take(len).read_to_end")
+        m = re.search(r"fn\s+read_vec\s*<", src)
+        need(m, "binio: bodies are read neither via vec![0u8; len] nor via read_vec")
+        body = block_at(src, m.end())
+        need(re.search(r"source\.by_ref\(\)\.take\(limit\)\.read_to_end\(&mut bits\)\?;", body) and
+             re.search(r"if\s+bits\.len\(\)\s*!=\s*len\s*\{", body) and "UnexpectedEof" in body and
+             "source.read(" not in body and len(re.findall(r"read_vec\(source, len\)\?", src)) == 5,
+             "binio: read_vec is no longer take(len).read_to_end + length check")
     params["readChecked"] = (unchecked == 0)
 
 
